@@ -181,7 +181,17 @@ def rule_d(ctx, out):
         else:
             out.bad(f"{g.name}:document-fields-overwritten", f"fields {stores} of the output document are assigned", where(g))
         writes = [c for c in calls_in(g.node, "dumps")]
-        okw = any(isinstance(a, ast.Call) and call_name(a) in ("to_json", "to_asm_json") and isinstance(a.func.value, ast.Name) for w in writes for a in w.args)
+        from ..core.flow import single_assignments
+        sa_ = single_assignments(g.node)
+
+        def values_of(a):
+            """what is handed to dumps: the expression itself, or every value its local can hold"""
+            if isinstance(a, ast.Name) and sa_.get(a.id):
+                return [v for (_, v, idx) in sa_[a.id] if idx is None]
+            return [a]
+        okw = any(vs and all(isinstance(v, ast.Call) and call_name(v) in ("to_json", "to_asm_json") and isinstance(v.func, ast.Attribute)
+                             and isinstance(v.func.value, ast.Name) for v in vs)
+                  for w in writes for a in w.args for vs in [values_of(a)])
         if okw:
             out.ok({"function": g.qual, "written": "to_json() of the copy"})
         else:
